@@ -5,14 +5,10 @@
    wl = false: blacklist policy, wl = true: whitelist policy.  A history is a list of
    VSet e b (set_visibility), VDespawn e (`Replicated` removed: e enters DespawnBuffer) and
    VTick (one send_replication), oldest first.  `spec wl ops e` is the abstract record of e:
-     spec_cur    most recent setting since e last started (policy default otherwise)
-     spec_prev   spec_cur at the last tick (ideal "what the client was told")
-     spec_eprev  what the Rust structure remembers of spec_prev (= spec_prev for a blacklist;
-                 for a whitelist it is forgotten when a hidden entity is shown again)
+     spec_cur    most recent setting since e last started (policy default negb wl otherwise)
+     spec_prev   spec_cur at the last tick ("what the client was told")
      spec_pend   occurrences of e in DespawnBuffer.
-
-   FINDING (whitelist): C08_vis_whitelist_lost_refuted -- an entity the client has, hidden /
-   shown / hidden inside one tick window, gets no despawn record: the client keeps it. *)
+   The specification is the same for both policies up to the default. *)
 From RV Require Import Lib.Res Vis.Visibility Vis.VisSpec Vis.Visibility_proofs.
 Open Scope N_scope.
 
@@ -31,16 +27,20 @@ Proof.
 Qed.
 
 Theorem C08_vis_spec_prev :
+  (forall wl e, spec_prev wl [] e = negb wl) /\
   (forall wl ops e, spec_prev wl (ops ++ [VTick]) e = spec_cur wl (ops ++ [VTick]) e) /\
-  (forall wl ops op e, op <> VTick -> spec_prev wl (ops ++ [op]) e = spec_prev wl ops e) /\
-  (forall ops e, spec_eprev false ops e = spec_prev false ops e) /\
-  (forall wl ops e, spec_eprev wl ops e = true -> spec_prev wl ops e = true) /\
-  (forall wl ops e, spec_eprev wl (ops ++ [VTick]) e = spec_prev wl (ops ++ [VTick]) e) /\
-  (forall ops e b, spec_eprev true (ops ++ [VSet e b]) e
-     = if b && negb (spec_cur true ops e) then false else spec_eprev true ops e).
+  (forall wl ops op e, op <> VTick -> spec_prev wl (ops ++ [op]) e = spec_prev wl ops e).
+Proof. exact (conj spec_prev_nil (conj spec_prev_tick spec_prev_not_tick)). Qed.
+
+Theorem C08_vis_spec_pend :
+  (forall wl e, spec_pend wl [] e = O) /\
+  (forall wl ops e, spec_pend wl (ops ++ [VDespawn e]) e = S (spec_pend wl ops e)) /\
+  (forall wl ops e e', e' <> e -> spec_pend wl (ops ++ [VDespawn e']) e = spec_pend wl ops e) /\
+  (forall wl ops e e' b, spec_pend wl (ops ++ [VSet e' b]) e = spec_pend wl ops e) /\
+  (forall wl ops e, spec_pend wl (ops ++ [VTick]) e = O).
 Proof.
-  exact (conj spec_prev_tick (conj spec_prev_not_tick (conj spec_eprev_blacklist
-        (conj spec_eprev_implies_prev (conj spec_eprev_tick spec_eprev_whitelist_set))))).
+  exact (conj spec_pend_nil (conj spec_pend_despawn_same (conj spec_pend_despawn_other
+        (conj spec_pend_set spec_pend_tick)))).
 Qed.
 
 (* ---- (i) the query always reports the most recent setting (both policies, every history,
@@ -53,23 +53,23 @@ Proof. exact vis_query_latest. Qed.
 Theorem C08_vis_state_classification : forall wl ops e,
   let o := snd (vis_tick (vis_exec (vis_init wl) ops)) in
   let c := spec wl ops e in
-  out_state o e = classify (mid_cur wl c) (mid_eprev wl c) /\
+  out_state o e = classify (mid_cur wl c) (mid_prev wl c) /\
   out_is_visible o e = mid_cur wl c.
 Proof. exact vis_state_classification. Qed.
 
 Theorem C08_vis_state_classification_live : forall wl ops e,
   spec_pend wl ops e = O ->
   let st := out_state (snd (vis_tick (vis_exec (vis_init wl) ops))) e in
-  (st = VGained <-> spec_cur wl ops e && negb (spec_eprev wl ops e) = true) /\
-  (st = VVisible <-> spec_cur wl ops e && spec_eprev wl ops e = true) /\
+  st = classify (spec_cur wl ops e) (spec_prev wl ops e) /\
+  (st = VGained <-> spec_cur wl ops e && negb (spec_prev wl ops e) = true) /\
+  (st = VVisible <-> spec_cur wl ops e && spec_prev wl ops e = true) /\
   (st = VHidden <-> negb (spec_cur wl ops e) = true).
 Proof. exact vis_state_classification_live. Qed.
 
-Theorem C08_vis_state_classification_blacklist : forall ops e,
-  spec_pend false ops e = O ->
-  out_state (snd (vis_tick (vis_exec (vis_init false) ops))) e
-  = classify (spec_cur false ops e) (spec_prev false ops e).
-Proof. exact vis_state_classification_blacklist. Qed.
+Theorem C08_vis_state_classification_pending : forall wl ops e,
+  spec_pend wl ops e <> O ->
+  out_state (snd (vis_tick (vis_exec (vis_init wl) ops))) e = if wl then VHidden else VVisible.
+Proof. exact vis_state_classification_pending. Qed.
 
 (* hidden now => skipped by this tick (no component data, no removals) *)
 Theorem C08_vis_hidden_is_skipped : forall wl ops e,
@@ -84,38 +84,29 @@ Theorem C08_vis_despawn_records : forall wl ops e,
   <-> despawn_record wl (spec wl ops e) = true.
 Proof. exact vis_despawn_records. Qed.
 
+Theorem C08_vis_despawn_records_live : forall wl ops e,
+  spec_pend wl ops e = O ->
+  (In e (o_despawns (snd (vis_tick (vis_exec (vis_init wl) ops))))
+   <-> spec_prev wl ops e && negb (spec_cur wl ops e) = true).
+Proof. exact vis_despawn_records_live. Qed.
+
+(* contains D03 (hidden and despawned inside one window) and the whitelist
+   hide / show / hide case *)
 Theorem C08_vis_despawn_records_complete : forall wl ops e,
-  spec_eprev wl ops e = true ->
+  spec_prev wl ops e = true ->
   spec_cur wl ops e = false \/ spec_pend wl ops e <> O ->
   In e (o_despawns (snd (vis_tick (vis_exec (vis_init wl) ops)))).
 Proof. exact vis_despawn_records_complete. Qed.
 
+(* the only extra records: gained and despawned inside one window (both policies);
+   blacklist: hidden, never shown to the client, at least twice in DespawnBuffer *)
 Theorem C08_vis_despawn_records_sound : forall wl ops e,
   In e (o_despawns (snd (vis_tick (vis_exec (vis_init wl) ops)))) ->
-  (spec_eprev wl ops e = true /\ (spec_cur wl ops e = false \/ spec_pend wl ops e <> O))
-  \/ (spec_eprev wl ops e = false /\ spec_cur wl ops e = true /\ spec_pend wl ops e <> O)
-  \/ (wl = false /\ spec_eprev wl ops e = false /\ spec_cur wl ops e = false /\
+  (spec_prev wl ops e = true /\ (spec_cur wl ops e = false \/ spec_pend wl ops e <> O))
+  \/ (spec_prev wl ops e = false /\ spec_cur wl ops e = true /\ spec_pend wl ops e <> O)
+  \/ (wl = false /\ spec_prev wl ops e = false /\ spec_cur wl ops e = false /\
       (2 <= spec_pend wl ops e)%nat).
 Proof. exact vis_despawn_records_sound. Qed.
-
-(* blacklist, ideal form (contains D03: hidden and despawned inside one window) *)
-Theorem C08_vis_despawn_records_blacklist : forall ops e,
-  spec_prev false ops e = true ->
-  spec_cur false ops e = false \/ spec_pend false ops e <> O ->
-  In e (o_despawns (snd (vis_tick (vis_exec (vis_init false) ops)))).
-Proof. exact vis_despawn_records_blacklist. Qed.
-
-(* whitelist, ideal form: FALSE of the code *)
-Theorem C08_vis_whitelist_lost_refuted :
-  ~ (forall ops e, spec_prev true ops e = true -> spec_cur true ops e = false ->
-       In e (o_despawns (snd (vis_tick (vis_exec (vis_init true) ops))))).
-Proof. exact vis_despawn_records_whitelist_ideal_refuted. Qed.
-
-Theorem C08_vis_whitelist_regain_refuted :
-  ~ (forall ops e, spec_pend true ops e = O ->
-       out_state (snd (vis_tick (vis_exec (vis_init true) ops))) e
-       = classify (spec_cur true ops e) (spec_prev true ops e)).
-Proof. exact vis_state_classification_whitelist_ideal_refuted. Qed.
 
 (* ---- (iv) entities do not influence each other ---- *)
 Theorem C08_vis_pointwise : forall wl ops1 ops2 e, proj e ops1 = proj e ops2 ->
@@ -200,38 +191,44 @@ Example C08_extra_records :
   (* blacklist, hidden, twice in the despawn buffer *)
   o_despawns (run_tick false [VSet 7 false; VTick; VDespawn 7; VDespawn 7]) = [7] /\
   o_despawns (run_tick false [VSet 7 false; VTick; VDespawn 7]) = [] /\
+  o_despawns (run_tick true [VDespawn 7; VDespawn 7]) = [] /\
   (* visible and twice in the buffer: recorded twice (blacklist only) *)
   o_despawns (run_tick false [VDespawn 7; VDespawn 7]) = [7; 7] /\
   o_despawns (run_tick true [VSet 7 true; VTick; VDespawn 7; VDespawn 7]) = [7].
 Proof. repeat split; reflexivity. Qed.
 
-(* FINDING, whitelist: the witness of C08_vis_whitelist_lost_refuted.  The client has 7
-   (VVisible at the first tick is preceded by VGained), 7 is hidden at the second tick,
-   no record is produced and the structure is back to its initial value. *)
-Example C08_whitelist_lost_witness :
-  out_state (run_tick true [VSet 7 true]) 7 = VGained /\
-  o_despawns (run_tick true [VSet 7 true; VTick; VSet 7 false; VSet 7 true; VSet 7 false]) = [] /\
-  out_state (run_tick true [VSet 7 true; VTick; VSet 7 false; VSet 7 true; VSet 7 false]) 7 = VHidden /\
-  s_vis (vis_exec (vis_init true) [VSet 7 true; VTick; VSet 7 false; VSet 7 true; VSet 7 false])
-  = whitelist.
+(* REGRESSION (whitelist, fixed by "whitelist remembers that a client has an entity when it is
+   hidden and shown again within a tick"): the client has 7; hide / show / hide inside one
+   window.  Before the fix no record was produced and the client kept 7 forever. *)
+Example C08_whitelist_hide_show_hide :
+  let ops := [VSet 7 true; VTick; VSet 7 false; VSet 7 true; VSet 7 false] in
+  spec_prev true ops 7 = true /\ spec_cur true ops 7 = false /\
+  o_despawns (run_tick true ops) = [7] /\
+  out_state (run_tick true ops) 7 = VHidden /\
+  s_vis (vis_exec (vis_init true) (ops ++ [VTick])) = whitelist.
 Proof. repeat split; reflexivity. Qed.
 
-(* harmless counterpart: shown again => full resend *)
-Example C08_whitelist_regain_witness :
-  out_state (run_tick true [VSet 7 true; VTick; VSet 7 false; VSet 7 true]) 7 = VGained /\
-  o_despawns (run_tick true [VSet 7 true; VTick; VSet 7 false; VSet 7 true]) = [] /\
+(* REGRESSION (same fix): hide / show inside one window is invisible to the client:
+   VVisible (incremental), not VGained (full resend), and no record; like the blacklist *)
+Example C08_whitelist_hide_show :
+  let ops := [VSet 7 true; VTick; VSet 7 false; VSet 7 true] in
+  out_state (run_tick true ops) 7 = VVisible /\
+  o_despawns (run_tick true ops) = [] /\
+  s_vis (vis_exec (vis_init true) ops) = s_vis (vis_exec (vis_init true) [VSet 7 true; VTick]) /\
   out_state (run_tick false [VTick; VSet 7 false; VSet 7 true]) 7 = VVisible.
 Proof. repeat split; reflexivity. Qed.
 
-(* A processed despawn forgets every setting, also one made AFTER the `Replicated` marker was
-   removed (and re-inserted) in the same window: the query no longer reports the most recent
-   setting.  This is part of the specification (spec_cur at VTick), listed here because it is
-   the only way the first sentence of C08 can fail at Layer 1. *)
+(* OPEN: a processed despawn forgets every setting, also one made AFTER the `Replicated`
+   marker was removed (and re-inserted) in the same window: the query no longer reports the
+   most recent setting.  This is part of the specification (spec_cur at VTick), listed here
+   because it is the only way the first sentence of C08 can fail at Layer 1. *)
 Example C08_reinsert_forgets_setting :
   let ops := [VTick; VDespawn 7; VSet 7 false; VTick] in
   is_visible (s_vis (vis_exec (vis_init false) ops)) 7 = true /\
   out_state (run_tick false [VTick; VDespawn 7; VSet 7 false]) 7 = VVisible /\
-  o_despawns (run_tick false [VTick; VDespawn 7; VSet 7 false]) = [7].
+  o_despawns (run_tick false [VTick; VDespawn 7; VSet 7 false]) = [7] /\
+  (* whitelist counterpart: an entity shown after the re-insert stays hidden *)
+  is_visible (s_vis (vis_exec (vis_init true) [VDespawn 7; VSet 7 true; VTick])) 7 = false.
 Proof. repeat split; reflexivity. Qed.
 
 (* the unit tests of client_visibility.rs, on the model *)
@@ -249,7 +246,8 @@ Example C08_unit_tests :
    state (update w1) 9 = VVisible /\ v_added (update w1) = []) /\
   set_visibility whitelist 9 false = whitelist /\
   (let w2 := set_visibility (update w1) 9 false in
-   is_visible w2 9 = false /\ v_removed w2 = [9] /\ update w2 = whitelist) /\
+   is_visible w2 9 = false /\ v_removed w2 = [9] /\ update w2 = whitelist /\
+   set_visibility w2 9 true = update w1) /\
   set_visibility w1 9 false = whitelist /\
   set_visibility (update w1) 9 true = update w1.
 Proof. repeat split; reflexivity. Qed.
@@ -261,17 +259,16 @@ Check C08_vis_despawn_records : forall wl ops e,
   <-> despawn_record wl (spec wl ops e) = true.
 Print Assumptions C08_vis_spec_cur.
 Print Assumptions C08_vis_spec_prev.
+Print Assumptions C08_vis_spec_pend.
 Print Assumptions C08_vis_query_latest.
 Print Assumptions C08_vis_state_classification.
 Print Assumptions C08_vis_state_classification_live.
-Print Assumptions C08_vis_state_classification_blacklist.
+Print Assumptions C08_vis_state_classification_pending.
 Print Assumptions C08_vis_hidden_is_skipped.
 Print Assumptions C08_vis_despawn_records.
+Print Assumptions C08_vis_despawn_records_live.
 Print Assumptions C08_vis_despawn_records_complete.
 Print Assumptions C08_vis_despawn_records_sound.
-Print Assumptions C08_vis_despawn_records_blacklist.
-Print Assumptions C08_vis_whitelist_lost_refuted.
-Print Assumptions C08_vis_whitelist_regain_refuted.
 Print Assumptions C08_vis_pointwise.
 Print Assumptions C08_vis_pointwise_functions.
 Print Assumptions C08_vis_set_then_query.
